@@ -6,8 +6,8 @@
 #ifndef J
 #define J 3
 #endif
-#ifndef OPS
-#define OPS 7              /* bit0 send(Message*), bit1 send(Message&), bit2 send_batch */
+#ifndef OP
+#define OP 0               /* compile-time: 0 send(Message*), 1 send(Message&), 2 send_batch */
 #endif
 uint32_t cx_n, cx_r, cx_custom, cx_orig[J]; uint8_t cx_op, cx_j, cx_kind[J], cx_pre34[J], cx_pre43[J], cx_noinc, cx_destroy, cx_always, cx_persist, cx_stale;
 uint8_t cx_elen[J], cx_enc[J][ENC_MAX];
@@ -31,10 +31,13 @@ int main(void)
 #ifdef STALE_CTRL
   c_valid = nondet_u8() & 1; c_snd = nondet_u32(); c_rcv = nondet_u32(); cx_stale = 1;
 #endif
-  uint8_t op = nondet_u8(); VF_ASSUME(op < 3 && ((OPS >> op) & 1));
-  uint8_t j = 1; if (op == 2) { j = nondet_u8(); VF_ASSUME(j <= J); }
-#ifdef JFIX
-  if (op == 2) VF_ASSUME(j == JFIX);
+  const uint8_t op = OP;
+#if OP != 2
+  const uint8_t j = 1;
+#elif defined(JFIX)          /* batch size as a compile-time case split */
+  const uint8_t j = JFIX;
+#else
+  uint8_t j = nondet_u8(); VF_ASSUME(j <= J);
 #endif
   uint32_t custom = 0; uint8_t noinc = 0, destroy = nondet_u8() & 1;
   if (op < 2) { custom = nondet_u32(); noinc = nondet_u8() & 1; }
@@ -50,10 +53,10 @@ int main(void)
 #endif
     if (!pre34[i]) pre43[i] = 0;                 /* PossDupFlag is only ever present on a message that carries its original number */
 #ifdef KF_C16_CTRL_OVERRIDE
-    VF_ASSUME(pre34[i] || kind[i] != K_SEQRESET);
+    VF_ASSUME((pre34[i] && (!always || pre43[i])) || kind[i] != K_SEQRESET);
 #endif
 #ifdef KF_C16_ALWAYS_RESEND    /* known-finding complement: no retransmission while always_seqnum_assign is configured */
-    VF_ASSUME(!(always && pre34[i]));
+    VF_ASSUME(!(always && pre43[i]));
 #endif
     if (i < j) {
       world_msg(i, kind[i]);
@@ -65,20 +68,25 @@ int main(void)
   cx_n = n; cx_r = r; cx_op = op; cx_j = j; cx_custom = custom; cx_noinc = noinc; cx_destroy = destroy; cx_always = always; cx_persist = with_persist;
 
   uint32_t ok;
-  if (op == 0) ok = vf_sb_send_p(&the_sess, MSGP(0), destroy, custom, noinc) & 1;
-  else if (op == 1) ok = vf_sb_send_r(&the_sess, MSGP(0), custom, noinc) & 1;
-  else ok = vf_sb_send_batch(&the_sess, MSGP(0), MSGP(1), MSGP(2), j, destroy);
+#if OP == 0
+  ok = vf_sb_send_p(&the_sess, MSGP(0), destroy, custom, noinc) & 1;
+#elif OP == 1
+  ok = vf_sb_send_r(&the_sess, MSGP(0), custom, noinc) & 1;
+#else
+  ok = vf_sb_send_batch(&the_sess, MSGP(0), MSGP(1 % NMSG), MSGP(2 % NMSG), j, destroy);
+#endif
   VF_ASSERT(!__vf_exc_pending, "C16: send does not throw"); __vf_exc_pending = 0;
   VF_ASSERT(op == 2 ? ok == j : ok == 1, "C16: every message of the operation is reported as sent");
   VF_ASSERT(e_n == j, "C16: every message of the operation is encoded exactly once");
 
-  /* oracle (statement of C16).  A message is a retransmission when it already carries its original MsgSeqNum, a gap
-     fill when it is a SequenceReset; explicit numbering overrides (custom_seqnum / no_increment) are caller-chosen
+  /* oracle (statement of C16).  A message is a retransmission when it already carries its original MsgSeqNum (under
+     always_seqnum_assign: only when it is also flagged PossDup; an unflagged one is renumbered as new), a gap fill when
+     it is a SequenceReset; explicit numbering overrides (custom_seqnum / no_increment) are caller-chosen
      numbers and excluded from the consecutive-numbering clause only. */
   uint32_t run = n;
   for (int i = 0; i < J; i++) if (i < j && (uint32_t)i < e_n) {
     VF_ASSERT(e_msg[i] == (uint32_t)i, "C16: messages are transmitted in the order given");
-    int retrans = pre34[i], gapfill = kind[i] == K_SEQRESET, override_ = custom != 0 || noinc;
+    int retrans = pre34[i] && (!always || pre43[i]), gapfill = kind[i] == K_SEQRESET, override_ = custom != 0 || noinc;
     VF_ASSERT(e_has34[i], "C16: every transmitted message carries a MsgSeqNum");
     if (!retrans && !gapfill && !override_) {
       VF_ASSERT(e_v34[i] == run, "C16: a new message carries the number following the previous new message");
@@ -99,7 +107,7 @@ int main(void)
     VF_ASSERT(e_v34[i] < vf_sess_next_send(SESS), "C16: the number of an unflagged message is not handed out again");
   if (with_persist) {
 #ifdef STALE_CTRL
-    int wrote = 0; for (int i = 0; i < J; i++) if (i < j && !pre34[i]) wrote = 1;
+    int wrote = 0; for (int i = 0; i < J; i++) if (i < j && !(pre34[i] && (!always || pre43[i]))) wrote = 1;
     if (wrote)
 #endif
     VF_ASSERT(c_valid && c_snd == vf_sess_next_send(SESS) && c_rcv == vf_sess_next_recv(SESS), "C16: after the send the control record equals the session's numbers");
